@@ -114,6 +114,7 @@ type FuncSpec struct {
 	Trusted   bool
 	NilRecv   bool // the method is specified for a nil receiver too
 	Refines   []string // interface methods ("Iface.Method") whose contract this method must satisfy
+	Impls     []Expr   // iface contracts: implementations dispatched by case analysis at call sites
 	Inline    bool
 	Pure      bool
 	Props     []string
@@ -175,7 +176,7 @@ func parseContractFile(path string, pkgPath string, ps *PkgSpec) error {
 		lines = append(lines, rawLine{t, path, i + 1})
 	}
 	// merge continuation lines
-	kw := regexp.MustCompile(`^(func|iface|extern|global|ghost|model|constraint|pred|arith|requires|ensures|assigns|decreases|loop|let|trusted|nilrecv|refines|inline|pure|props|hint|assert|params|results)\b`)
+	kw := regexp.MustCompile(`^(func|iface|extern|global|ghost|model|constraint|pred|arith|requires|ensures|assigns|decreases|loop|let|trusted|nilrecv|refines|impl|inline|pure|props|hint|assert|params|results)\b`)
 	var merged []rawLine
 	for _, l := range lines {
 		if !kw.MatchString(l.text) && len(merged) > 0 {
@@ -306,6 +307,12 @@ func parseContractFile(path string, pkgPath string, ps *PkgSpec) error {
 				cur.NilRecv = true
 			case "refines":
 				cur.Refines = append(cur.Refines, strings.Fields(strings.ReplaceAll(rest, ",", " "))...)
+			case "impl":
+				ie, err := ParseExpr(rest)
+				if err != nil {
+					return fail(l, "%v", err)
+				}
+				cur.Impls = append(cur.Impls, ie)
 			case "inline":
 				cur.Inline = true
 			case "pure":
